@@ -186,6 +186,9 @@ func (n *networkTopology) replicaMap(tokenRing *tokenRing) tokenRingReplicas {
 	replicasInDC := make(map[string]int, len(n.dcs))
 	// dc -> racks
 	seenDCRacks := make(map[string]map[string]struct{}, len(n.dcs))
+	// hosts already visited while walking the ring for the current token, a
+	// host owning several tokens (vnodes) must only be considered once
+	seenHosts := make(map[*HostInfo]struct{}, len(tokenRing.hosts))
 
 	for _, h := range tokenRing.hosts {
 		dc := h.DataCenter()
@@ -229,14 +232,23 @@ func (n *networkTopology) replicaMap(tokenRing *tokenRing) tokenRingReplicas {
 			}
 		}
 
+		for h := range seenHosts {
+			delete(seenHosts, h)
+		}
+
 		replicas := make([]*HostInfo, 0, totalRF)
 		for j := 0; j < len(tokens) && (len(replicas) < totalRF && !n.haveRF(replicasInDC)); j++ {
-			// TODO: ensure we dont add the same host twice
 			p := i + j
 			if p >= len(tokens) {
 				p -= len(tokens)
 			}
 			h := tokens[p].host
+
+			if _, ok := seenHosts[h]; ok {
+				// already a replica, or already held back in skipped
+				continue
+			}
+			seenHosts[h] = struct{}{}
 
 			dc := h.DataCenter()
 			rack := h.Rack()
